@@ -154,6 +154,13 @@ theorem inline_decl_is_local (x : Nat) (v w : SVal) (k : Nat) (rv : Option SVal)
     exact ⟨hr.2, hr.1⟩
   simp [stmtS, ifS, evalS, SVal.ternary, inBlock, blockS, St.push, St.pop, declareVar, hx]
 
+/-- temporary tables as csvq has them (known finding F37): a name that is visible in any block cannot be declared
+    again, not even in an inner block — nothing is changed, the error is "redeclared" -/
+theorem table_cannot_be_shadowed (x : Nat) (w : SVal) (k : Nat) (rv : Option SVal) (st : St)
+    (h : getVar x st.blocks = some w) :
+    (stmtI (k + 1) (.declT x) rv st).outcome = .err .redeclaredTable ∧ (stmtI (k + 1) (.declT x) rv st).st = st := by
+  simp [stmtI, h, PRes.fail, PRes.outcome]
+
 /-- any statement: only the CURRENT block can gain names; all enclosing blocks keep or lose theirs -/
 theorem decl_only_in_current_block (fuel : Nat) (s : Stmt) (rv : Option SVal) (st : St) :
     StackLE (stmtI fuel s rv st).st.blocks.tail st.blocks.tail := by
@@ -458,6 +465,16 @@ example : execImpl 200 [
 example : execImpl 100 [.decl 0 (i 1), .ifs [(tt, [.inline [.decl 0 (i 5), .print (.var 0)]])] [], .print (.var 0),
       .ifs [(tt, [.inline [.decl 1 (i 2), .exit], .print (i 9)])] [], .print (.var 1)]
     = ⟨[.int 5, .int 1], .exit, [[(0, .int 1)]]⟩ := by decide
+
+/-- a table (variable 100 = its number of rows) declared in a function body, INSERTed into two blocks deeper and
+    from a function called there, read back in the declaring block: the changes reached it (3 rows); gone afterwards -/
+example : execImpl 200 [
+      .declFn 1 [] [.assign 100 (.bin .add (.var 100) (i 1))],
+      .declFn 0 [] [.declT 100,
+        .ifs [(tt, [.while (.bin .lt (.var 100) (i 2)) [.assign 100 (.bin .add (.var 100) (i 1))], .print (.call 1 [])])] [],
+        .ret (.var 100)],
+      .print (.call 0 []), .print (.var 100)]
+    = ⟨[.null, .int 3], .err .undeclaredVar, [[]]⟩ := by decide
 
 /-- a function declared in a block is gone after it -/
 example : (execImpl 100 [.ifs [(tt, [.declFn 0 [] [.ret (i 1)], .print (.call 0 [])])] [], .print (.call 0 [])])
